@@ -445,6 +445,101 @@ namespace
     if (judged > 20 && sensitive > 0) ctx.nontrivial();
     ctx.sample(JObj().str("suite", "length model").integer("longer_coordinate", k).integer("probes_judged", static_cast<long long>(judged)).done());
   }
+
+  // ---------- suite noop: a section without models of a kind takes part in the interpolation along strike with the incoming value ----------
+  // World A: only the section entry of coordinate k carries a model of the kind (no feature-level model, none in the other sections).
+  // World B: the other coordinates get explicit section entries with a model that does nothing (adds zero). The two worlds are the same logical world.
+  void run_noop(uint64_t idx, Ctx &ctx)
+  {
+    static const int c_cmp = Ctx::counter_id("noop_probes_compared");
+    const bool fault = idx % 2; const int kind = static_cast<int>(idx / 2) % 2; const unsigned k = static_cast<unsigned>(idx / 4) % 3;
+    const std::string seg0 = "{\"length\":3e5,\"thickness\":[1e5],\"angle\":[90]";
+    const std::string real = kind == 0 ? ",\"composition models\":[{\"model\":\"uniform\",\"compositions\":[0],\"fractions\":[0.8]}]}" : ",\"temperature models\":[{\"model\":\"uniform\",\"temperature\":900}]}";
+    const std::string noop = kind == 0 ? ",\"composition models\":[{\"model\":\"uniform\",\"compositions\":[0],\"fractions\":[0],\"operation\":\"add\"}]}" : ",\"temperature models\":[{\"model\":\"uniform\",\"temperature\":0,\"operation\":\"add\"}]}";
+    auto feature = [&](bool with_noops)
+    {
+      std::string sec = "[";
+      bool first = true;
+      for (unsigned c = 0; c < 3; ++c)
+        {
+          if (c != k && !with_noops) continue;
+          sec += std::string(first ? "" : ",") + "{\"coordinate\":" + std::to_string(c) + ",\"segments\":[" + seg0 + (c == k ? real : noop) + "]}";
+          first = false;
+        }
+      sec += "]";
+      return std::string("{\"model\":\"") + (fault ? "fault" : "subducting plate") + "\",\"name\":\"F\",\"coordinates\":[[0,-3e5],[2e4,0],[0,3e5]],\"dip point\":[5e6,0],\"segments\":[" + seg0 + "}],\"sections\":" + sec + "}";
+    };
+    const std::string under = "{\"model\":\"mantle layer\",\"name\":\"U\",\"coordinates\":[[-9e5,-9e5],[9e5,-9e5],[9e5,9e5],[-9e5,9e5]],\"composition models\":[{\"model\":\"uniform\",\"compositions\":[0],\"fractions\":[0.25]}]}";
+    const std::string ta = world(coord(false), {under, feature(false)}), tb = world(coord(false), {under, feature(true)});
+    std::unique_ptr<World> a, b;
+    try { a = make_world(ta, 1, "na"); b = make_world(tb, 1, "nb"); }
+    catch (const std::exception &e) { ctx.violation("harness/world-rejected", JObj().str("what", std::string(e.what()).substr(0, 300)).str("world", ta).done()); return; }
+    const Request req = {{{1,0,0}},{{2,0,0}},{{4,0,0}}};
+    size_t inside = 0, differing_from_background = 0;
+    for (double x : {-4e4, -1e4, 1.5e4, 3e4}) for (double y = -2.9e5; y <= 2.9e5; y += 1.25e4) for (double d : {5e4, 1.5e5, 2.5e5})
+          {
+            const P3 p = query_point(false, x, y, d);
+            const std::vector<double> va = a->properties(p, d, req), vb = b->properties(p, d, req);
+            ctx.eval(); ctx.count(c_cmp);
+            if (va[2] != 0) ++inside;
+            if (kind == 0 ? std::fabs(va[1] - 0.25) > 1e-3 : false) ++differing_from_background;
+            const bool same = va[2] == vb[2] && std::fabs(va[0] - vb[0]) <= 1e-9 * std::max(1.0, std::fabs(va[0])) && std::fabs(va[1] - vb[1]) <= 1e-12;
+            if (!same)
+              {
+                ctx.violation(std::string("C10/noop/") + (fault ? "fault" : "subducting plate") + (kind == 0 ? "/composition" : "/temperature") + "/sections-without-a-model-differ-from-sections-with-a-model-that-adds-zero",
+                              JObj().integer("coordinate_carrying_the_model", k).raw("point", jarr(p)).num("depth", d).raw("only_one_section_has_a_model", jarr(va)).raw("other_sections_add_zero", jarr(vb)).str("world_a", ta).str("world_b", tb).done());
+                return;
+              }
+          }
+    if (inside > 50 && (kind == 1 || differing_from_background > 10)) ctx.nontrivial();
+  }
+
+  // ---------- suite reverse: the same trench listed from the other end (section entries renumbered) is the same body ----------
+  void run_reverse(uint64_t idx, Ctx &ctx)
+  {
+    static const int c_cmp = Ctx::counter_id("reverse_probes_compared");
+    const bool fault = idx % 2; const unsigned pattern = 1 + static_cast<unsigned>(idx / 2) % 7; const int shape = static_cast<int>(idx / 14) % 2;
+    // thickness per coordinate: bit c of the pattern set -> 100 km, otherwise 0 (the body tapers out along strike towards that coordinate)
+    const std::vector<P2> tr = shape == 0 ? std::vector<P2>{{{0,-3e5}},{{4e4,0}},{{0,3e5}}} : std::vector<P2>{{{-1e5,-3e5}},{{3e4,-0.5e5}},{{-2e4,3e5}}};
+    auto feature = [&](bool reversed)
+    {
+      std::vector<P2> c = tr; if (reversed) std::reverse(c.begin(), c.end());
+      std::string sec = "[";
+      for (unsigned j = 0; j < 3; ++j)
+        {
+          const unsigned orig = reversed ? 2 - j : j;
+          const double th = (pattern >> orig) & 1 ? 1e5 : 0.0;
+          sec += std::string(j ? "," : "") + "{\"coordinate\":" + std::to_string(j) + ",\"segments\":[{\"length\":3e5,\"thickness\":[" + num(th) + "],\"angle\":[60],\"temperature models\":[{\"model\":\"uniform\",\"temperature\":" + num(600 + 100.0*orig) + "}]}]}";
+        }
+      sec += "]";
+      return std::string("{\"model\":\"") + (fault ? "fault" : "subducting plate") + "\",\"name\":\"F\",\"coordinates\":" + pts(c) + ",\"dip point\":[5e6,0],\"segments\":[{\"length\":3e5,\"thickness\":[1e5],\"angle\":[60]}],\"sections\":" + sec + "}";
+    };
+    const std::string ta = world(coord(false), {feature(false)}), tb = world(coord(false), {feature(true)});
+    std::unique_ptr<World> a, b;
+    try { a = make_world(ta, 1, "ra"); b = make_world(tb, 1, "rb"); }
+    catch (const std::exception &e) { ctx.violation("harness/world-rejected", JObj().str("what", std::string(e.what()).substr(0, 300)).str("world", ta).done()); return; }
+    const Request req = {{{1,0,0}},{{4,0,0}}};
+    size_t inside = 0;
+    for (double x = -1.3e5; x <= 2.6e5; x += 1.3e4) for (double y = -2.93e5; y <= 2.95e5; y += 2.1e4) for (double d : {2e4, 8e4, 1.6e5, 2.4e5})
+          {
+            const P3 p = query_point(false, x, y, d);
+            const std::vector<double> va = a->properties(p, d, req), vb = b->properties(p, d, req);
+            ctx.eval(); ctx.count(c_cmp);
+            if (va[1] != -1) ++inside;
+            const bool same = va[1] == vb[1] && std::fabs(va[0] - vb[0]) <= 1e-6 * std::max(1.0, std::fabs(va[0]));
+            if (!same)
+              {
+                // a probe within 1 m of the body's surface may fall on either side
+                bool robust = true;
+                for (double dx : {-1.0, 1.0}) for (double dd : {-1.0, 1.0}) { const P3 q = query_point(false, x + dx, y, d + dd); if (a->properties(q, d + dd, req)[1] != va[1]) robust = false; }
+                if (!robust) continue;
+                ctx.violation(std::string("C10/reverse/") + (fault ? "fault" : "subducting plate") + "/trench-listed-from-the-other-end-gives-another-body",
+                              JObj().integer("thickness_pattern_bits", pattern).raw("point", jarr(p)).num("depth", d).raw("listed_forward", jarr(va)).raw("listed_backward", jarr(vb)).str("world_forward", ta).str("world_backward", tb).done());
+                return;
+              }
+          }
+    if (inside > 50) ctx.nontrivial();
+  }
 }
 
 int main(int argc, char **argv)
@@ -460,7 +555,7 @@ int main(int argc, char **argv)
                       "locality: a probe with zero weight on the overridden section must answer bit-identically; extent: membership must equal top truncation <= distance from plane <= thickness and 0 <= distance along plane <= length with the three quantities interpolated with the observed weights (probes within 1 mm of a limit are skipped and counted)",
                       "trenches are gently bent (no three collinear coordinates: see the known C19 finding about exactly collinear coordinates)"
                      };
-  spec.counters = {"answers_compared", "answers_inside_the_feature", "probes_changed_by_an_override", "probes_outside_the_neighbour_range_checked_unchanged", "convexity_checks", "membership_checks_against_interpolated_extent", "skipped_near_boundary", "coarse_planar_geometry_checks"};
+  spec.counters = {"noop_probes_compared", "reverse_probes_compared", "answers_compared", "answers_inside_the_feature", "probes_changed_by_an_override", "probes_outside_the_neighbour_range_checked_unchanged", "convexity_checks", "membership_checks_against_interpolated_extent", "skipped_near_boundary", "coarse_planar_geometry_checks"};
   spec.quick_deadline_s = 240;
   spec.thorough_deadline_s = 1200;
   return driver(argc, argv, spec, [](const std::string &tier)
@@ -472,7 +567,11 @@ int main(int argc, char **argv)
     uint64_t subsets = 0, ks = 0;
     for (unsigned n : ns) subsets += 1ull << n;
     for (unsigned n : ns2) ks += n;
-    std::vector<Suite> s(3);
+    std::vector<Suite> s(5);
+    s[4].name = "reverse"; s[4].n = 28; s[4].run = run_reverse;
+    s[4].bound = "{slab, fault} x 7 patterns of {100 km, 0} thickness at the three coordinates (the body tapers out along strike) x 2 bent trenches: the world with the coordinates listed from the other end and the section entries renumbered, 3480 probes each";
+    s[3].name = "noop"; s[3].n = 12; s[3].run = run_noop;
+    s[3].bound = "{slab, fault} x {composition, temperature} x the one coordinate of three whose section entry carries a model: compared with the world whose other section entries carry a model that adds zero, 564 probes each";
     s[2].name = "lengthmodel"; s[2].n = 6; s[2].run = run_length_model;
     s[2].bound = "slab with 3 coordinates, section k in {0,1,2} 1000 km long, the others 600 km, feature-level mass conserving temperature (adiabatic heating on / off): probes within 2 km of every coordinate x 25 down-dip positions x 19 depths each compared with the uniform slab that has the interpolated length of that location";
     s[0].name = "layouts";
